@@ -83,6 +83,8 @@ def run_battery(pid, only=None, repo=None, verbose=True, jobs=4):
         todo.append({'name': 'seeded:' + os.path.basename(d), 'kind': 'mutant', 'expect': None, 'edits': [('patch', os.path.join(d, 'patch.diff'))]})
     for f in sorted(glob.glob(os.path.join(HERE, 'benign', '*.diff'))):
         todo.append({'name': 'refactoring:' + os.path.basename(f)[:-5], 'kind': 'benign', 'edits': [('patch', f)]})
+    for f in sorted(glob.glob(os.path.join(HERE, 'renames', '*.diff'))):
+        todo.append({'name': 'rename-locals:' + os.path.basename(f)[3:-5], 'kind': 'benign', 'edits': [('patch', f)]})
     todo = [m for m in todo if not (only and only not in m['name'])]
     with ThreadPoolExecutor(max_workers=jobs) as ex:
         parts = list(ex.map(lambda m: _one(pid, m, repo), todo))
